@@ -40,10 +40,10 @@ impl VecEmbedder for FixedEmbedder {
 
 const MATCH_ALL: &str = "NOT zzzqqqabsentword";
 
-fn search_ids(world: &mut World, query: &str, uri: Option<&str>, scope: Option<&str>, no_sketch: bool) -> Result<Vec<u64>, String> {
+fn search_ids(world: &mut World, query: &str, uri: Option<&str>, scope: Option<&str>, no_sketch: bool, as_of_frame: Option<u64>) -> Result<Vec<u64>, String> {
     let req = SearchRequest {
         query: query.to_string(), top_k: 500, snippet_chars: 80, uri: uri.map(|s| s.to_string()),
-        scope: scope.map(|s| s.to_string()), cursor: None, as_of_frame: None, as_of_ts: None, no_sketch,
+        scope: scope.map(|s| s.to_string()), cursor: None, as_of_frame, as_of_ts: None, no_sketch,
         acl_context: None, acl_enforcement_mode: AclEnforcementMode::Audit,
     };
     match guarded(std::panic::AssertUnwindSafe(|| world.mem().search(req))) {
@@ -219,7 +219,7 @@ fn oracle_c08(ctx: &mut Ctx, v: &mut StepView) -> Option<(String, String)> {
     }
 
     // ---- 5. lexical search / ask with queries aimed at the inactive frames (newest first)
-    let mut budget = 12usize;
+    let mut budget = 9usize;
     let mut asked: BTreeSet<String> = BTreeSet::new();
     let targets: Vec<&FrameObs> = inactive.iter().rev().take(5).cloned().collect();
     for f in &targets {
@@ -236,16 +236,18 @@ fn oracle_c08(ctx: &mut Ctx, v: &mut StepView) -> Option<(String, String)> {
             let key = format!("{q}|{uri:?}|{scope:?}");
             if budget == 0 || !asked.insert(key) { continue; }
             budget -= 1;
-            for no_sketch in [true, false] {
-                match search_ids(v.world, &q, uri.as_deref(), scope.as_deref(), no_sketch) {
+            // third variant: the time-travel view as of the newest frame (candidate filter get_replay_frame_ids)
+            for (no_sketch, as_of) in [(true, None), (false, None), (true, obs.frames.last().map(|f| f.id))] {
+                if as_of.is_some() { v.world.branches.push("search-time-travel".into()); }
+                match search_ids(v.world, &q, uri.as_deref(), scope.as_deref(), no_sketch, as_of) {
                     Ok(ids) => {
                         v.world.branches.push(if ids.is_empty() { "search-empty".into() } else { "search-hits".into() });
                         if q.contains(':') { v.world.branches.push("search-field-query".into()); }
-                        if no_sketch && ctx.probes.len() < 3 && !ids.is_empty() { ctx.probes.push(Probe::Lex { query: q.clone(), real: ids.clone() }); }
+                        if no_sketch && as_of.is_none() && ctx.probes.len() < 3 && !ids.is_empty() { ctx.probes.push(Probe::Lex { query: q.clone(), real: ids.clone() }); }
                         for id in ids {
                             if is_inactive(id) {
                                 return Some(("lexical-search-returns-inactive-frame".into(),
-                                    format!("search(`{q}`, uri={uri:?}, scope={scope:?}, no_sketch={no_sketch}) returns {}", describe(id))));
+                                    format!("search(`{q}`, uri={uri:?}, scope={scope:?}, no_sketch={no_sketch}, as_of_frame={as_of:?}) returns {}", describe(id))));
                             }
                         }
                     }
@@ -378,6 +380,22 @@ fn read_path_model_check(world: &mut World, obs: &Obs, d: &mut Driver, probes: &
         let model = d.ask("timeline");
         world.branches.push("timeline-compared".into());
         if model != ids_line(&real) { return Some(("timeline ids".into(), model, ids_line(&real))); }
+    }
+    // time-travel candidates
+    if let Some(last) = obs.frames.last() {
+        let cut = last.id / 2;
+        let ts_cut = obs.frames[(obs.frames.len() - 1) / 2].ts;
+        for (f, ts) in [(Some(cut), None), (None, Some(ts_cut)), (Some(last.id), Some(ts_cut))] {
+            let req = SearchRequest {
+                query: "x".into(), top_k: 10, snippet_chars: 80, uri: None, scope: None, cursor: None, as_of_frame: f, as_of_ts: ts,
+                no_sketch: true, acl_context: None, acl_enforcement_mode: AclEnforcementMode::Audit,
+            };
+            if let Ok(real) = world.mem().verif_replay_frame_ids(&req) {
+                let model = d.ask(&format!("replay f={} ts={}", f.map(|x| x.to_string()).unwrap_or("-".into()), ts.map(|x| x.to_string()).unwrap_or("-".into())));
+                world.branches.push("replay-ids-compared".into());
+                if model != ids_line(&real) { return Some((format!("get_replay_frame_ids(as_of_frame={f:?}, as_of_ts={ts:?})"), model, ids_line(&real))); }
+            }
+        }
     }
     // probes: what the implementation reported is among what the model's loop keeps of the raw engine answer
     for p in probes {
@@ -583,7 +601,7 @@ fn main() {
     sum.expect_branches(&["inactive-frames-present", "quiescent-check", "inherit-checked-reuse", "inherit-checked-payload", "search-hits",
         "search-field-query", "vec-hits", "adaptive", "ask-lex", "ask-hybrid", "by-uri-active-version", "by-uri-no-active-version", "op-skip",
         "op-finalize", "op-vacuum", "wal-replay-on-open", "auto-commit", "update-reuse", "update-payload", "timeline-compared",
-        "hits-compared", "vhits-compared", "lex-docs-equal"]);
+        "hits-compared", "vhits-compared", "lex-docs-equal", "replay-ids-compared", "search-time-travel"]);
     if args.mode == "replay" {
         let case = load_replay(args.replay_file.as_ref().expect("replay file"));
         let input = case.get("input").unwrap_or(&case);
